@@ -210,24 +210,6 @@ func VerifH_C16_vertex() {
 	}
 }
 
-// scalar JSON equality (copy of the C08 oracle's scalar part)
-func c08EqLocal(a, b interface{}) bool {
-	switch x := a.(type) {
-	case nil:
-		return b == nil
-	case bool:
-		y, ok := b.(bool)
-		return ok && x == y
-	case float64:
-		y, ok := b.(float64)
-		return ok && x == y
-	case string:
-		y, ok := b.(string)
-		return ok && x == y
-	}
-	return false
-}
-
 func c16OutEdges(gi gdbi.GraphInterface, id string, load bool) []*gdbi.Edge {
 	req := make(chan gdbi.ElementLookup, 1)
 	req <- gdbi.ElementLookup{ID: id}
